@@ -5120,7 +5120,7 @@ func (t *Terminal) Loop() error {
 			return false
 		}
 		scrollPreviewTo := func(newOffset int) {
-			if !t.previewer.scrollable {
+			if !t.previewer.scrollable || !t.hasPreviewWindow() {
 				return
 			}
 			numLines := len(t.previewer.lines)
